@@ -66,7 +66,15 @@ def phase_script(draw):
     lines = [HEAD.rstrip("\n")]
     if "btn2" in kinds:
         lines += ["def clicked():", "    mon.write('@C')"]
-    lines.append("mon = SerialMonitor(9600)")
+    mon_form = draw(st.sampled_from(["top", "top", "top", "else_taken", "if_taken", "twice"]))
+    if mon_form == "top":
+        lines.append("mon = SerialMonitor(9600)")
+    elif mon_form == "twice":
+        lines += ["mon = SerialMonitor(9600)", "mon = SerialMonitor(9600)"]
+    else:
+        # the monitor is opened in both arms of a branch (same rate): the arm that runs must open the port before the first print
+        c = "1 > 2" if mon_form == "else_taken" else "2 > 1"
+        lines += [f"if {c}:", "    mon = SerialMonitor(9600)", "else:", "    mon = SerialMonitor(9600)"]
     pins = {}
     info = {"pro_markers": [], "loop_markers": [], "loop_devices": [], "buttons": [], "has_loop": has_loop, "anim": False, "motor": "mot" in kinds,
             "servo_pin": 6 if "srv" in kinds else None, "counter": False, "lcds": 0}
